@@ -58,6 +58,9 @@ pub struct Scenario {
 	/// two flushers: the background flush and a checkpoint (which flushes synchronously), with
 	/// one immutable memtable pending and a non-empty active memtable; no committers
 	pub two_flushers: bool,
+	/// checkpoint (kept, then opened on its own) against a compaction round and a background flush;
+	/// no committers: the checkpoint must hold exactly the committed data
+	pub checkpoint_vs_bg: bool,
 	/// preemption bounds (quick, thorough)
 	pub bounds: (usize, usize),
 }
@@ -80,6 +83,7 @@ pub fn scenarios(property: &str, tier: Tier) -> Vec<Scenario> {
 		deviation_bounded: false,
 		room: 1,
 		two_flushers: false,
+		checkpoint_vs_bg: false,
 		bounds: (2, 3),
 	};
 	let all = vec![
@@ -193,6 +197,13 @@ pub fn scenarios(property: &str, tier: Tier) -> Vec<Scenario> {
 			committers: vec![vec!["a0"], vec!["a0"]],
 			bg: true,
 			reader: true,
+			..base.clone()
+		},
+		Scenario {
+			name: "c14-checkpoint-vs-compaction-and-flush",
+			property: "C14",
+			bounds: (2, 3),
+			checkpoint_vs_bg: true,
 			..base.clone()
 		},
 		Scenario {
@@ -312,6 +323,24 @@ fn setup(sc: &Scenario) -> Result<Setup, String> {
 			world: w,
 			tree,
 			prefill_entries: 4,
+		});
+	}
+	if sc.checkpoint_vs_bg {
+		let mut w = World::new(OptSet::base("sched-checkpoint").levels(2).cache(0), &[])?;
+		let put = |w: &mut World, k: &str, v: &str| -> Result<(), String> { w.commit(&[crate::model::Write::set(k.as_bytes(), v.as_bytes())], surrealkv::Durability::Eventual)?.map_err(|e| e) };
+		put(&mut w, "f1", "old-f1")?;
+		put(&mut w, "f2", "value-of-f2")?;
+		w.physical(crate::world::Phys::FlushAll)?;
+		put(&mut w, "f1", "mid-f1")?;
+		w.physical(crate::world::Phys::FlushAll)?;
+		put(&mut w, "f3", "newer-value-of-f3")?;
+		w.physical(crate::world::Phys::Rotate)?;
+		put(&mut w, "f1", "newer-value-of-f1")?;
+		let tree = w.tree().clone();
+		return Ok(Setup {
+			world: w,
+			tree,
+			prefill_entries: 5,
 		});
 	}
 	if sc.two_flushers {
@@ -457,6 +486,22 @@ fn run_schedule(sc: &Scenario, prefix: &[usize]) -> Result<Outcome, String> {
 			}
 		}));
 	}
+	let ck_dir = if sc.checkpoint_vs_bg { crate::util::fresh_dir("sched-ck-keep") } else { std::path::PathBuf::new() };
+	if sc.checkpoint_vs_bg {
+		for which in 0..3 {
+			let tree = su.tree.clone();
+			let rt_handle = su.world.rt.as_ref().unwrap().handle().clone();
+			let ck = ck_dir.clone();
+			programs.push(Box::new(move |_s: &Arc<Sched>, _me: usize| -> Result<(), String> {
+				let _g = rt_handle.enter();
+				match which {
+					0 => tree.create_checkpoint(&ck).map(|_| ()).map_err(|e| format!("checkpoint: {e}")),
+					1 => tree.verif_compact_round().map_err(|e| format!("compact: {e}")),
+					_ => tree.verif_flush_oldest().map(|_| ()).map_err(|e| format!("background flush: {e}")),
+				}
+			}));
+		}
+	}
 	if sc.two_flushers {
 		for which in 0..2 {
 			let tree = su.tree.clone();
@@ -552,7 +597,7 @@ fn run_schedule(sc: &Scenario, prefix: &[usize]) -> Result<Outcome, String> {
 	}
 	// probe: a fresh read-only transaction at every scheduling point
 	let flusher_expect: Vec<(&str, String)> = vec![("f1", "newer-value-of-f1".to_string()), ("f2", "value-of-f2".to_string()), ("f3", "newer-value-of-f3".to_string())];
-	let probe: Option<ProbeFn> = if sc.two_flushers {
+	let probe: Option<ProbeFn> = if sc.two_flushers || sc.checkpoint_vs_bg {
 		let tree = su.tree.clone();
 		let board = Arc::clone(&board);
 		let rt_handle = su.world.rt.as_ref().unwrap().handle().clone();
@@ -656,7 +701,7 @@ fn run_schedule(sc: &Scenario, prefix: &[usize]) -> Result<Outcome, String> {
 	let preempted = ex.points.iter().any(|p| p.running_enabled && p.chosen != 0);
 	let mut out = Outcome {
 		awaited: ex.points.iter().any(|p| p.label == "await"),
-		shape_changed: su.world.shape().map(|s| !s.immutables.is_empty() || s.levels.iter().any(|l| !l.is_empty())).unwrap_or(false) && !sc.reader && !sc.vlog && !sc.two_flushers,
+		shape_changed: su.world.shape().map(|s| !s.immutables.is_empty() || s.levels.iter().any(|l| !l.is_empty())).unwrap_or(false) && !sc.reader && !sc.vlog && !sc.two_flushers && !sc.checkpoint_vs_bg,
 		exec_points: ex.points.clone(),
 		failure: None,
 		obs_hash: 0,
@@ -876,6 +921,46 @@ fn run_schedule(sc: &Scenario, prefix: &[usize]) -> Result<Outcome, String> {
 					}
 				}
 			}
+		}
+		"C14" => {
+			for (i, r) in results.iter().enumerate() {
+				if let Err(e) = r {
+					let _ = std::fs::remove_dir_all(&ck_dir);
+					out.failure = Some((format!("thread-error:{}", crate::props::norm_msg(e).chars().take(60).collect::<String>()), format!("thread {i}: {e}")));
+					return Ok(out);
+				}
+			}
+			let probes = board.probes.lock().unwrap().clone();
+			for p in &probes {
+				if let Some(e) = &p.err {
+					let _ = std::fs::remove_dir_all(&ck_dir);
+					out.failure = Some(("answer-changed-during-checkpoint".into(), format!("probe at point {} ({}): {e}", p.step, p.label)));
+					return Ok(out);
+				}
+			}
+			// the checkpoint on its own: must open and hold exactly the committed data
+			let mut w2 = World::attach(su.world.opt.clone(), &ck_dir, &[]);
+			let rec = w2.open().and_then(|_| w2.dump());
+			let _ = w2.close();
+			drop(w2);
+			let _ = std::fs::remove_dir_all(&ck_dir);
+			match rec {
+				Err(e) => {
+					out.failure = Some((format!("checkpoint-does-not-open:{}", crate::props::norm_msg(&e).chars().take(60).collect::<String>()), format!("opening the checkpoint taken during the schedule: {e}")));
+					return Ok(out);
+				}
+				Ok(d) => {
+					let got: Vec<(String, String)> = d.iter().map(|(k, v)| (String::from_utf8_lossy(k).to_string(), String::from_utf8_lossy(v).to_string())).collect();
+					let want: Vec<(String, String)> = flusher_expect.iter().map(|(k, v)| (k.to_string(), v.clone())).collect();
+					if got != want {
+						out.failure = Some(("checkpoint-content".into(), format!("checkpoint holds {got:?}, committed {want:?}")));
+						return Ok(out);
+					}
+				}
+			}
+			h.push_str(&format!("{}", probes.len()));
+			out.obs_hash = crate::util::fnv64(h.as_bytes());
+			return Ok(out);
 		}
 		"C06" => {
 			for (i, r) in results.iter().enumerate() {
